@@ -1150,7 +1150,7 @@ class Exec:
     def cast(self, f, fr, rv):
         _, op, ty, kind = rv
         v = self.operand(fr, op)
-        if kind.startswith("PointerCoercion") or kind in ("PtrToPtr", "FnPtrToPtr"):
+        if kind.startswith("PointerCoercion") or kind in ("PtrToPtr", "FnPtrToPtr", "Subtype"):
             return v
         if kind == "Transmute":
             if type(v) is BoxU:
